@@ -95,6 +95,8 @@ func buildTree(root string) error {
 		"cwd/aZ.gr/keep.txt": "",
 		// targets for image names that look like paths
 		"outside/victim.png": "", "cwd/sub/inner.png": "",
+		// files without the .gr extension named like allowed names: load("a") may read cwd/a.gr only
+		"cwd/a": "", "cwd/Z0": "", "cwd/secret": "", "cwd/ok": "",
 	}
 	for rel := range files {
 		p := filepath.Join(root, rel)
